@@ -130,13 +130,13 @@ def gen_tree(rng, depth, budget):
             break
         r = rng.random()
         if r < 0.15 and depth < 3:
-            k = rng.choice([1, 2, 3])
+            k = rng.choice([1, 2, 3, 2, 3, 0])           # 'n*(f)' is f written n times - also for n = 0
             sub = gen_tree(rng, depth + 1, budget)
             if sub:
                 items.append({'t': 'rep', 'k': k, 'items': sub})
                 budget[0] -= (k - 1) * len(flatten(sub))
         elif r < 0.25:
-            k = rng.choice([1, 2, 3])
+            k = rng.choice([1, 2, 3, 2, 3, 0])
             t = gen_token(rng)
             if t['t'] == 'tok' and t['mode'] != 'pos':
                 t['mode'] = 'pos'
